@@ -544,6 +544,7 @@ pub fn w(prop: &str, seed: u64) -> RunDesc {
         v.push(o(K::Downgrade, 0, 0, 0, 0));
     }
     v.push(o(K::StoreW, WROOT0, 0, 0, 0));
+    v.push(o(K::Signal, 1, 0, 0, 0));
     // expected
     match prov {
         0 => v.push(o(K::LoadW, WROOT0, 0, 0, 0)),
@@ -589,7 +590,28 @@ pub fn w(prop: &str, seed: u64) -> RunDesc {
         c.push(o(K::Unpin, 0, 0, 0, 0));
         d.threads.push(thread(0, "flipper", c));
     }
-    d.params = J::obj().set("template", "W expected-provenance for AtomicWeak CAS").set("provenance", prov).set("stamped_content", stamped_content).set("op", which);
+    let restamper = rng.chance(0.5);
+    if restamper {
+        // a concurrent re-stamper: swaps in weak pointers to the *same* object and tag, each
+        // carrying another internal stamp (they went through an AtomicRc at different epochs)
+        let mut c = vec![o(K::Await, 1, 0, 0, 0), o(K::Pin, 0, 0, 0, 0), o(K::LoadW, WROOT0, 0, 0, 0), o(K::WsUpgrade, 0, 0, 0, 0), o(K::Counted, 0, 1, 0, 0), o(K::Unpin, 0, 0, 0, 0)];
+        for _ in 0..2 + rng.below(5) {
+            c.extend(rounds(rng.below(3) as usize));
+            c.extend([
+                o(K::Pin, 0, 0, 0, 0),
+                o(K::Clone, 1, 2, 0, 0),
+                o(K::Store, ROOT1, 2, 0, 0),
+                o(K::Load, ROOT1, 0, 0, 0),
+                o(K::SnapDown, 0, 0, 0, 0),
+                o(K::WsCounted, 0, 0, 0, 0),
+                o(K::SwapW, WROOT0, 0, 0, 0),
+                o(K::DropW, 0, 0, 0, 0),
+                o(K::Unpin, 0, 0, 0, 0),
+            ]);
+        }
+        d.threads.push(thread(0, "restamper", c));
+    }
+    d.params = J::obj().set("template", "W expected-provenance for AtomicWeak CAS").set("restamper", restamper).set("provenance", prov).set("stamped_content", stamped_content).set("op", which);
     d
 }
 
